@@ -1675,6 +1675,31 @@ func evalOnce(t *testing.T, expr string, c *calculator.ExpressionCalculator, var
 }
 
 func TestVerifReplay(t *testing.T) {
+	// "concurrent use of separate instances": before anything else has been parsed in this process (so that lazily filled
+	// caches are still cold), goroutines that each own a calculator set and evaluate expressions with every multi-character
+	// operator (run under -race in the thorough tier); the answers are those of a sequential run afterwards
+	{
+		exprs := []string{"1 <= 2", "1 >= 2", "1 <> 2", "1 != 2", "1 << 2", "8 >> 1", "1 < 2 AND 2 > 1", "NOT (1 = 1) OR 2 <= 1"}
+		var wg sync.WaitGroup
+		got := make([]string, 16)
+		for g := range got {
+			wg.Add(1)
+			go func(g int) {
+				defer wg.Done()
+				c := calculator.NewExpressionCalculator()
+				for _, e := range exprs {
+					if err := c.SetExpression(e); err != nil { got[g] += "error: " + err.Error(); continue }
+					r, err := c.Evaluate()
+					got[g] += fmt.Sprint(r, err, ";")
+				}
+			}(g)
+		}
+		wg.Wait()
+		want := ""
+		c := calculator.NewExpressionCalculator()
+		for _, e := range exprs { if err := c.SetExpression(e); err != nil { want += "error: " + err.Error(); continue }; r, err := c.Evaluate(); want += fmt.Sprint(r, err, ";") }
+		for g := range got { if got[g] != want { t.Errorf("separate calculators used concurrently: goroutine %d got %s, a sequential run %s (C19)", g, got[g], want) } }
+	}
 	var cases [][]string
 	var gen func(abc []string, cur []string, n int)
 	gen = func(abc []string, cur []string, n int) { if len(cur) > 0 { cases = append(cases, append([]string{}, cur...)) }; if n == 0 { return }; for _, c := range abc { gen(abc, append(cur, c), n-1) } }
@@ -1776,7 +1801,7 @@ class EvaluatorFamily(Family):
     def bounded_source(cls, prog, fname):
         return 'calculator', cls.source(), ('all token sequences up to length 3 over a 27-token alphabet and up to length 5 over {1,a,b,-,/,(,),[,],",",MAX}: '
                                             'accepted ones checked for a well-formed program (A6), evaluated twice under 4 variable assignments x 2 operation managers '
-                                            '(one of result/error, no panic, equal answers, program and variables unchanged), 40 of them evaluated from 16 goroutines')
+                                            '(one of result/error, no panic, equal answers, program and variables unchanged), 40 of them evaluated from 16 goroutines; 16 goroutines with a calculator each set and evaluate 8 expressions with every multi-character operator on cold caches')
 
 
 FUNCS_TEST = r'''package functions_test
@@ -2060,6 +2085,7 @@ import (
 	"github.com/pip-services3-gox/pip-services3-expressions-gox/calculator"
 	"github.com/pip-services3-gox/pip-services3-expressions-gox/calculator/variables"
 	"github.com/pip-services3-gox/pip-services3-expressions-gox/mustache"
+	mparsers "github.com/pip-services3-gox/pip-services3-expressions-gox/mustache/parsers"
 	"github.com/pip-services3-gox/pip-services3-expressions-gox/variants"
 )
 
@@ -2173,6 +2199,10 @@ func TestVerifReplay(t *testing.T) {
 		if err != nil { continue }
 		var want []string
 		for _, tk := range toks { if n, ok := names[tk]; ok { dup := false; for _, w := range want { if strings.EqualFold(w, n) { dup = true } }; if !dup { want = append(want, n) } } }
+		// "each reported once in order of first occurrence": the parser's own report, in order (the first spelling is kept)
+		mp := mparsers.NewMustacheParser()
+		if e := mp.SetTemplate(tpl); e != nil { t.Errorf("%q: the template accepts it, its parser does not: %v", tpl, e); bad++ }
+		if got := mp.VariableNames(); strings.Join(got, ",") != strings.Join(want, ",") { t.Errorf("%q: reported names %v, in order of first occurrence they are %v", tpl, got, want); bad++ }
 		dv := m.DefaultVariables()
 		if len(dv) != len(want) { t.Errorf("%q: default variables %v, names in the template %v", tpl, dv, want); bad++ }
 		for _, w := range want { found := false; for k := range dv { if strings.EqualFold(k, w) { found = true } }; if !found { t.Errorf("%q: no default variable for %s (%v)", tpl, w, dv); bad++ } }
@@ -2243,9 +2273,13 @@ func parse(ls []lex, pos *int, open string, top bool) ([]*node, bool) {
 	return out, top
 }
 
+// a name resolves ignoring letter case; the same answer on every run, whatever the map's iteration order: the key
+// spelled exactly like the name if there is one, else the smallest of the keys that match
 func get(m map[string]string, name string) (string, bool) {
-	for k, v := range m { if strings.EqualFold(k, name) { return v, true } }
-	return "", false
+	if v, ok := m[name]; ok { return v, true }
+	best, found := "", false
+	for k := range m { if strings.EqualFold(k, name) && (!found || k < best) { best, found = k, true } }
+	return m[best], found
 }
 
 func esc(s string) string {
@@ -2273,7 +2307,8 @@ func TestVerifReplay(t *testing.T) {
 	var gen func(cur []lex, n int)
 	gen = func(cur []lex, n int) { if len(cur) > 0 { cases = append(cases, append([]lex{}, cur...)) }; if n == 0 { return }; for _, c := range alphabet { gen(append(cur, c), n-1) } }
 	gen(nil, @L@)
-	maps := []map[string]string{{}, {"a": "1", "b": "q\"/\\\n\tZoë \b\f\r√", "c": "", "d": "x"}, {"A": "vё", "B": "", "C": "z"}}
+	maps := []map[string]string{{}, {"a": "1", "b": "q\"/\\\n\tZoë \b\f\r√", "c": "", "d": "x"}, {"A": "vё", "B": "", "C": "z"},
+		{"a": "lo", "A": "UP", "b": "", "B": "Q/", "d": "", "D": "y", "C": "z", "c": ""}}
 	bad, accepted := 0, 0
 	for _, ls := range cases {
 		var sb strings.Builder
@@ -2296,7 +2331,7 @@ func TestVerifReplay(t *testing.T) {
 		for mi, vars := range maps {
 			before := len(vars)
 			want := render(tree, vars)
-			for rep := 0; rep < 2; rep++ {
+			for rep := 0; rep < 3; rep++ {
 				var got string
 				var e2 error
 				func() { defer func() { if r := recover(); r != nil { t.Errorf("%q (map %d): rendering panicked: %v", tpl, mi, r); bad++; e2 = nil; got = want } }(); got, e2 = m.EvaluateWithVariables(vars) }()
@@ -2325,7 +2360,7 @@ class MustacheFamily(Family):
     @classmethod
     def bounded_source(cls, prog, fname):
         return 'mustache', cls.source(), ('all sequences of up to 4 template lexemes over a 17-lexeme alphabet (text, variables, escaped variables, comments, sections in '
-                                          'every spelling, section ends by name and anonymous, three malformed tags) x 3 variable maps, against a reference recogniser and renderer')
+                                          'every spelling, section ends by name and anonymous, three malformed tags) x 4 variable maps (one with keys that differ only in letter case), each rendered three times, against a reference recogniser and renderer')
 
 
 HISTORY_TEST = r'''package test_calculator
@@ -2397,6 +2432,20 @@ func TestVerifReplay(t *testing.T) {
 			}
 		}
 	}
+	// separate instances share nothing: reconfiguring one (a new symbol, a new word character, no word characters at all)
+	// leaves an instance made before and one made afterwards as they were
+	for name, mk := range makers {
+		for _, probe := range []string{"a:=b #c <= d", "x~~y 1.5", "{{a:=b}} #c"} {
+			want := show(mk().TokenizeBuffer(probe))
+			before := mk()
+			one := mk()
+			if st := one.SymbolState(); st != nil { st.Add(":=", tokenizers.Symbol); st.Add("~~", tokenizers.Symbol); st.Add("<= ", tokenizers.Symbol) }
+			if st := one.WordState(); st != nil { st.SetWordChars('#', '#', true); st.SetWordChars('a', 'z', false) }
+			one.TokenizeBuffer(probe)
+			if got := show(before.TokenizeBuffer(probe)); got != want { t.Errorf("%s tokenizer: after another instance was reconfigured %q gives %s, before %s", name, probe, got, want); bad++ }
+			if got := show(mk().TokenizeBuffer(probe)); got != want { t.Errorf("%s tokenizer: a new instance made after another was reconfigured reads %q as %s, before %s", name, probe, got, want); bad++ }
+		}
+	}
 	exprs := []string{"a + b", "A * 2", "f(a)", "a <= b", "a <> b", "a << 1", "1 +", "Max(a, 3) + B", "a + 'x'", "(", "a[0]", "NOT a"}
 	evalOf := func(c *calculator.ExpressionCalculator) string {
 		var toks []string
@@ -2453,7 +2502,8 @@ class HistoryFamily(Family):
     @classmethod
     def bounded_source(cls, prog, fname):
         return 'test/calculator', cls.source(), ('all ordered pairs from a pool of 21 inputs x 4 tokenizers (after a complete run and after an aborted one; 0..2 has-next queries per token), '
-                                                    '12 x 12 expressions on one calculator, 6 x 6 templates on one template instance, each against fresh instances')
+                                                    '12 x 12 expressions on one calculator, 6 x 6 templates on one template instance, each against fresh instances; '
+                                                    'reconfiguring one tokenizer instance (symbols, word characters) against an older and a newer instance')
 
 
 LEXEME_TEST = r'''package test_calculator
